@@ -60,9 +60,28 @@ def facts_of(test, taken):
 _CATCH_ALL = {"Exception", "BaseException"}
 
 
+def _is_logging_stmt(node) -> bool:
+    """logger.<level>(...) / logging.<level>(...) / print(...) as a statement: observability only.
+    It is modelled as not raising, so that adding or removing a log line inside a try block does
+    not change the exception paths the rules see."""
+    if not (isinstance(node, ast.Expr) and isinstance(node.value, ast.Call)):
+        return False
+    f = node.value.func
+    if isinstance(f, ast.Name) and f.id == "print":
+        return True
+    if isinstance(f, ast.Attribute) and f.attr in ("debug", "info", "warning", "error", "critical", "exception", "log"):
+        base = f.value
+        while isinstance(base, ast.Attribute):
+            base = base.value
+        return isinstance(base, ast.Name) and base.id in ("logger", "logging", "log", "LOGGER")
+    return False
+
+
 def _can_raise(node) -> bool:
     if isinstance(node, (ast.Raise, ast.Assert)):
         return True
+    if _is_logging_stmt(node):
+        return False
     for n in ast.walk(node):
         if isinstance(n, (ast.Call, ast.Subscript, ast.Await, ast.Attribute, ast.BinOp, ast.Yield, ast.YieldFrom)):
             return True
